@@ -25,6 +25,7 @@ import (
 	"verif/harness/gen/lookups"
 	"verif/harness/guard"
 	"verif/harness/ref/refcff"
+	"verif/harness/ref/refcffwalk"
 	"verif/harness/ref/refcmap"
 	"verif/harness/ref/refsfnt"
 	"verif/harness/stats"
@@ -159,6 +160,77 @@ func mutateContainer(t *rapid.T, in []byte) []byte {
 	return out
 }
 
+// mutateCFFIndex rewrites one offset of one INDEX of a well-formed CFF font
+// program (located by the independent CFF walker) to a hostile value sized
+// for that INDEX's offSize.  The last offset of an INDEX is the size of its
+// data area; random byte mutation of a 1- or 2-byte offset array cannot make
+// it large, and rarely leaves all the earlier offsets intact.
+func mutateCFFIndex(t *rapid.T, in []byte) []byte {
+	p, err := refcffwalk.Parse(in)
+	if err != nil {
+		return in
+	}
+	var cand []refcffwalk.Extent
+	for _, e := range p.Layout.Extents {
+		if p.Layout.OffSize[e.Name] > 0 {
+			cand = append(cand, e)
+		}
+	}
+	if len(cand) == 0 {
+		return in
+	}
+	b := append([]byte(nil), in...)
+	e := rapid.SampledFrom(cand).Draw(t, "index")
+	count := int(b[e.Start])<<8 | int(b[e.Start+1])
+	offSize := int(b[e.Start+2])
+	k := count
+	if rapid.IntRange(0, 2).Draw(t, "whichOffset") == 0 {
+		k = rapid.IntRange(0, count).Draw(t, "offsetIdx")
+	}
+	dataLen := e.End - (e.Start + 3 + (count+1)*offSize) + 1
+	max := 1<<(8*offSize) - 1
+	v := rapid.SampledFrom([]int{0, 1, dataLen + 1, dataLen + 2, dataLen - 1, len(b), len(b) - e.Start + 1, max, max - 1, max/2 + 1, max / 2, 0x7FFFFFFF & max, 1 << 24 & max, 1 << 28 & max}).Draw(t, "offsetValue")
+	pos := e.Start + 3 + k*offSize
+	for j := 0; j < offSize; j++ {
+		b[pos+j] = byte(v >> (8 * (offSize - 1 - j)))
+	}
+	stats.Label("cff", fmt.Sprintf("index-offset-mutation:offSize%d", offSize))
+	return b
+}
+
+// truncateCmapSubtable shortens a cmap subtable by a few bytes and keeps its
+// own length field consistent, the way a foreign encoder's off-by-some would:
+// plain truncation of the table leaves the length field pointing past the end,
+// which the table-level decoder rejects before any format decoder runs.
+func truncateCmapSubtable(t *rapid.T, sub []byte) []byte {
+	if len(sub) < 8 {
+		return sub
+	}
+	format := int(sub[0])<<8 | int(sub[1])
+	cut := rapid.SampledFrom([]int{1, 2, 2, 2, 3, 4, 6, 8, 12, 16}).Draw(t, "subCut")
+	if rapid.IntRange(0, 3).Draw(t, "cutAnywhere") == 0 {
+		cut = rapid.IntRange(1, len(sub)).Draw(t, "subCutAny")
+	}
+	n := len(sub) - cut
+	switch format {
+	case 0, 2, 4, 6:
+		if n < 6 {
+			return sub
+		}
+		out := append([]byte(nil), sub[:n]...)
+		out[2], out[3] = byte(n>>8), byte(n)
+		return out
+	case 8, 10, 12, 13:
+		if n < 12 {
+			return sub
+		}
+		out := append([]byte(nil), sub[:n]...)
+		binary.BigEndian.PutUint32(out[4:], uint32(n))
+		return out
+	}
+	return sub
+}
+
 // ---- seed generators --------------------------------------------------------------
 
 type drawChooser struct{ t *rapid.T }
@@ -244,7 +316,7 @@ func subrSeed(t *rapid.T) []byte {
 		}
 		return b
 	}
-	spec := refcff.Spec{FontName: "Subr"}
+	spec := refcff.Spec{FontName: "Subr", IndexOffSize: rapid.SampledFrom([]int{0, 0, 1, 2, 3, 4}).Draw(t, "indexOffSize")}
 	for i := 0; i < nG; i++ {
 		spec.GSubrs = append(spec.GSubrs, body("gsubr"))
 	}
@@ -356,6 +428,10 @@ func seedFor(t *rapid.T, name string) []byte {
 					}
 					sub, _ = refcmap.EncodeFormat12(m, 0, drawChooser{t})
 				}
+				if len(sub) > 0 && rapid.IntRange(0, 3).Draw(t, "shortSub") == 0 {
+					sub = truncateCmapSubtable(t, sub)
+					stats.Label("cmap", "seed:subtable-shortened-consistently")
+				}
 				tbl[key] = sub
 			}
 			var out []byte
@@ -420,7 +496,18 @@ func seedFor(t *rapid.T, name string) []byte {
 		return out
 	case "coverage.Read", "coverage.ReadSet":
 		var gg []glyph.ID
-		g := rapid.IntRange(0, 200).Draw(t, "g0")
+		g := rapid.OneOf(rapid.IntRange(0, 200), rapid.IntRange(65490, 65535)).Draw(t, "g0")
+		if rapid.Bool().Draw(t, "runs") {
+			// few long runs: the encoder chooses the range format
+			for i := rapid.IntRange(1, 6).Draw(t, "nRuns"); i > 0 && g <= 0xFFFF; i-- {
+				for k := rapid.SampledFrom([]int{1, 2, 4, 9, 30, 300}).Draw(t, "runLen"); k > 0 && g <= 0xFFFF; k-- {
+					gg = append(gg, glyph.ID(g))
+					g++
+				}
+				g += rapid.SampledFrom([]int{1, 2, 7, 1000}).Draw(t, "gap")
+			}
+			return lookups.CovTable(gg).Encode()
+		}
 		for i := rapid.IntRange(0, 40).Draw(t, "n"); i > 0 && g <= 0xFFFF; i-- {
 			gg = append(gg, glyph.ID(g))
 			g += rapid.SampledFrom([]int{1, 1, 1, 2, 7, 1000}).Draw(t, "step")
@@ -428,7 +515,7 @@ func seedFor(t *rapid.T, name string) []byte {
 		return lookups.CovTable(gg).Encode()
 	case "classdef.Read":
 		cd := classdef.Table{}
-		g := rapid.IntRange(0, 200).Draw(t, "g0")
+		g := rapid.OneOf(rapid.IntRange(0, 200), rapid.IntRange(65490, 65535)).Draw(t, "g0")
 		for i := rapid.IntRange(0, 40).Draw(t, "n"); i > 0 && g <= 0xFFFF; i-- {
 			cd[glyph.ID(g)] = uint16(rapid.IntRange(1, 5).Draw(t, "cls"))
 			g += rapid.SampledFrom([]int{1, 1, 1, 2, 7, 1000}).Draw(t, "step")
@@ -488,6 +575,9 @@ func runGroup(t *testing.T, sub string, names ...string) {
 		if strings.HasPrefix(name, "sfnt.Read") || name == "header.Read" {
 			b = mutateContainer(t, seed)
 		} else {
+			if name == "cff.Read" && rapid.IntRange(0, 2).Draw(t, "indexMut") == 0 {
+				seed = mutateCFFIndex(t, seed)
+			}
 			b = mutateBytes(t, seed)
 		}
 		o := tg.run(b)
@@ -695,8 +785,53 @@ func TestC02SweepDegenerate(t *testing.T) {
 	})
 }
 
+// TestC02SweepTiny sweeps coverage and class definition tables (a few dozen
+// bytes each) for all three of their decoders: complete single-field and
+// pair sweeps are cheap there, so every case is swept for every decoder.
+func TestC02SweepTiny(t *testing.T) {
+	seen := map[uint64]bool{}
+	rapid.Check(t, func(t *rapid.T) {
+		kind := rapid.SampledFrom([]string{"coverage.Read", "classdef.Read"}).Draw(t, "kind")
+		seed := seedFor(t, kind)
+		if len(seed) > 120 || len(seed) < 4 {
+			t.Skip("not tiny")
+		}
+		h := stats.Hash(kind, seed)
+		if seen[h] {
+			return
+		}
+		seen[h] = true
+		decoders := []string{"classdef.Read"}
+		if kind == "coverage.Read" {
+			decoders = []string{"coverage.Read", "coverage.ReadSet"}
+		}
+		runs := 0
+		for _, name := range decoders {
+			runs += sweepTable(t.Fatalf, name, seed, func(nf int) []int {
+				// pairs: all fields of small tables, else the header fields and the tail
+				var ff []int
+				for i := 0; i < nf; i++ {
+					if nf <= 20 || i < 6 || i >= nf-14 {
+						ff = append(ff, i)
+					}
+				}
+				return ff
+			})
+		}
+		stats.LabelN("sweep-tiny", "decoder-calls", int64(runs))
+		stats.Label("sweep-tiny", fmt.Sprintf("%s:format%d", kind, int(seed[1])))
+		top := "low-glyphs"
+		if len(seed) >= 4 && seed[len(seed)-2] == 0xFF {
+			top = "near-top-of-glyph-range"
+		}
+		stats.CaseIn("sweep-tiny", h, true, func() string {
+			return fmt.Sprintf("%s: %d-byte table, %d single-field and pair mutations", kind, len(seed), runs)
+		}, kind, top)
+	})
+}
+
 func TestC02Sweep(t *testing.T) {
-	names := []string{"gtab.Read/GSUB", "gtab.Read/GPOS", "gpos-degenerate", "gdef.Read", "coverage.Read", "classdef.Read", "cmap.Decode", "kern.Read", "post.Read", "name.Decode", "hmtx.Decode"}
+	names := []string{"gtab.Read/GSUB", "gtab.Read/GPOS", "gpos-degenerate", "gdef.Read", "coverage.Read", "coverage.ReadSet", "classdef.Read", "cmap.Decode", "kern.Read", "post.Read", "name.Decode", "hmtx.Decode"}
 	rapid.Check(t, func(t *rapid.T) {
 		name := rapid.SampledFrom(names).Draw(t, "target")
 		seed := seedFor(t, name)
